@@ -8,6 +8,9 @@ SLICE_BASE = {'ops': 10000, 'wrap': 20000, 'steps': 30000, 'try': 40000, 'handle
               'grid': 80000, 'nest': 90000, 'anchor': 1000}
 
 
+CHUNK = {'grid': 2, 'nest': 8}
+
+
 def build_slice(slice_name, tier, seed):
     return simgen.slice_programs(slice_name, tier, seed, SLICE_BASE[slice_name])
 
